@@ -11,13 +11,16 @@ def run(ctx):
     beh = mc.gen_meta(ctx, "beh.ndjson", n, 12, False, False, False, ops)
     big = mc.gen_meta(ctx, "big.ndjson", 40 if ctx.thorough else 5, 7, False, False, False, '{"download"}',
                       bulks="{999, 1000, 1001, 2000, 2500}" if ctx.thorough else "{1000, 1001}", maxbundles=2, seed=ctx.seed + 7)
+    # file counts that are exact multiples of the index-file size (1000, 1 + 999, 2000)
+    exact = mc.gen_meta(ctx, "exact.ndjson", 0, 8, False, False, False, '{"download"}', maxbundles=4, script="exact")
     s = ctx.seed
     cfgs = [["--leaf", "64", "--conc", "1"], ["--leaf", "4096", "--conc", "20", "--crc"]]
     if ctx.thorough:
         cfgs += [["--leaf", "65", "--conc", "7"], ["--leaf", "65536", "--conc", "2", "--crc"], ["--leaf", str(2 << 20), "--conc", "4"]]
     else:
         cfgs = [cfgs[s % 2], ["--leaf", "96", "--conc", "4"] + (["--crc"] if s % 2 == 0 else [])]
-    jobs = mc.replay_jobs(ctx, beh, cfgs) + mc.replay_jobs(ctx, big, [["--leaf", "64", "--conc", "20"]], prefix="big")
+    jobs = mc.replay_jobs(ctx, beh, cfgs) + mc.replay_jobs(ctx, big, [["--leaf", "64", "--conc", "20"]], prefix="big") + \
+        mc.replay_jobs(ctx, exact, [["--leaf", "64", "--conc", "8"]], prefix="exact")
     if ctx.thorough:
         jobs += mc.replay_jobs(ctx, big, [["--leaf", "4096", "--conc", "1", "--crc"]], prefix="big2")
     results = vlib.parallel(jobs, max_workers=8)
